@@ -56,6 +56,13 @@ def specs():
                                  expects=['a,b', 'c,d'], unusable='a,,b', inputs=['a,b', 'd,c', 'x,y', 'a,,b']),
         'IntervalGrader': dict(make=lambda **k: M.IntervalGrader(**k), answers='[1,2]', expects=['[1,2]', '(3,4)'], unusable='[1,2,3]',
                                inputs=['[1,2]', '(3,4)', '[5,6]', '[1']),
+        # multi-input graders: answers are always configured, expect plays no role
+        'ListGrader': dict(make=lambda **k: M.ListGrader(subgraders=M.FormulaGrader(variables=['x']), ordered=True, **k),
+                           answers=['x', 'x^2'], expects=[], unusable=None, always_configured=True,
+                           inputs=[['x', 'x*x'], ['x', '2'], ['x+', 'x'], ['x', 'x', 'x'], ['1', 'x^2']]),
+        'SumGrader': dict(make=lambda **k: M.SumGrader(**k), answers={'lower': '1', 'upper': '3', 'summand': 'n', 'summation_variable': 'n'},
+                          expects=[], unusable=None, always_configured=True,
+                          inputs=[['1', '3', 'n', 'n'], ['1', '3', 'n^2', 'n'], ['1', '', 'n', 'n'], ['1', '3', 'n+', 'n'], ['1', '3', 'n']]),
     }
 
 
@@ -77,8 +84,16 @@ def check_debug_log(ctx, key, out, inp, expect, configured, wit):
     """With debug=True the log of call n must describe call n only."""
     if not out.returned:
         return
-    msg = out.value['msg']
+    msg = out.value['overall_message'] if 'input_list' in out.value else out.value['msg']
     ctx.count('debug_log_checks')
+    if isinstance(inp, list):
+        nlogs = msg.count('MITx Grading Library Version')
+        shown = 'Student Responses:<br/>\n' + '<br/>\n'.join(inp)
+        if nlogs != 1:
+            ctx.violation(key + ':debug_log_count', 'message contains %d debug logs' % nlogs, wit)
+        elif (shown + '<br/>') not in msg and (shown + '</pre>') not in msg:
+            ctx.violation(key + ':debug_log_stale_input', 'the log does not show the current inputs %r: %r' % (inp, msg[:300]), wit)
+        return
     nlogs = msg.count('MITx Grading Library Version')
     if nlogs != 1:
         ctx.violation(key + ':debug_log_count', 'message contains %d debug logs' % nlogs, wit)
@@ -103,15 +118,17 @@ def run_sequences(ctx):
         exps = [None] + sp['expects'] + ([sp['unusable']] if sp['unusable'] else [])
         events = [(e, s) for e in exps for s in sp['inputs']]
         for configured, debug in itertools.product((False, True), (False, True)):
+            if sp.get('always_configured') and not configured:
+                continue
             extra = {'debug': debug}
             if configured:
                 extra['answers'] = sp['answers']
 
             def fresh(e, s):
-                k = (cname, configured, debug, e, s)
+                k = (cname, configured, debug, e, repr(s))
                 if k not in fresh_cache:
                     g = sp['make'](**dict(extra))
-                    out = lib.call(ctx, g, e, s)
+                    out = lib.call(ctx, g, e, list(s) if isinstance(s, list) else s)
                     fresh_cache[k] = (norm(out, debug), out)
                 return fresh_cache[k]
 
@@ -136,6 +153,8 @@ def run_sequences(ctx):
                     raised = changed = False
                     for pos, ei in enumerate(seq):
                         e, s = events[ei]
+                        if isinstance(s, list):
+                            s = list(s)
                         out = lib.call(ctx, g, e, s)
                         ctx.ev()
                         ctx.count('sequence_steps')
@@ -329,11 +348,25 @@ def run_shared(ctx):
             ctx.count('negpow_steps', 0)
         else:
             # the parser is shared by all graders: malformed input to one must not change another's verdict
+            tagc = '%d' % (1000 + i)      # strings unique to this case: the shared parser has never seen them
+
             def build():
                 return {'F': M.FormulaGrader(answers='sin(x)+2k', variables=['x'], metric_suffixes=True),
-                        'N': M.NumericalGrader(answers='2'), 'G': M.FormulaGrader(answers='y^2', variables=['y'])}
+                        'N': M.NumericalGrader(answers='2'), 'G': M.FormulaGrader(answers='y^2', variables=['y']),
+                        'B': M.FormulaGrader(answers='n^2+' + tagc, variables=['n'], blacklist=['abs', 'floor']),
+                        'S': M.SumGrader(answers={'lower': '1', 'upper': '4', 'summand': 'n^2+' + tagc, 'summation_variable': 'n'})}
             calls = {'F': [(None, 'sin(x)+2000'), (None, 'zork(x)+ * 2k'), (None, 'sin(x+'), (None, 'sin(x)+2k+0')],
-                     'N': [(None, '2'), (None, '1+1'), (None, 'sin(')], 'G': [(None, 'y*y'), (None, 'y^2 + * 3'), (None, 'y*y+0')]}
+                     'N': [(None, '2'), (None, '1+1'), (None, 'sin(')], 'G': [(None, 'y*y'), (None, 'y^2 + * 3'), (None, 'y*y+0')],
+                     'B': [(None, 'n^2+' + tagc), (None, tagc + '+n^2'), (None, 'n*n+' + tagc)],
+                     'S': [(None, ['abs(0-1)', 'floor(4.5)', 'n^2+' + tagc, 'n']), (None, ['1', '4', tagc + '+n^2', 'n']),
+                           (None, ['abs(1)', 'floor(4.5)', 'n*n+' + tagc, 'n'])]}
+            # references are taken BEFORE any history, on freshly built graders, non-summation graders first
+            pre = {}
+            for nm in ('F', 'N', 'G', 'B', 'S'):
+                for (e0, s0) in calls[nm]:
+                    fr = build()
+                    ctx.seed_case('shared-ref', i, nm, repr(s0))
+                    pre[(nm, repr(s0))] = lib.call(ctx, fr[nm], e0, list(s0) if isinstance(s0, list) else s0)
         objs = build()
         length = rng.randint(4, 64 if not ctx.quick else 24)
         seq = []
@@ -355,7 +388,10 @@ def run_shared(ctx):
             else:
                 e_eff = e
             ctx.seed_case('shared', i, pos)
-            ref = lib.call(ctx, fresh[name], e_eff, s_)
+            if mode == 3:
+                ref = pre[(name, repr(s))]
+            else:
+                ref = lib.call(ctx, fresh[name], e_eff, s_)
             ctx.ev()
             ctx.count('shared_instance_steps')
             if mode == 2:
